@@ -1,4 +1,5 @@
 import Proofs.C06
+#print axioms C06.denote_and_or
 #print axioms C06.eval_test
 #print axioms C06.test_out_of_range
 #print axioms C06.all_iff
